@@ -37,6 +37,24 @@ type histCase struct {
 	// generator measurements
 	collapses, deletesHit, reloads, freshReloads, commits, bulk int
 	flushedRoot                                                 *common.Hash
+	// a copy of the handle taken earlier and what it held then
+	frozen        anyTrie
+	frozenContent map[string][]byte
+	frozenRaw     map[string][]byte
+	copies        int
+}
+
+// copyTrie copies a trie handle the way core/state does (SecureTrie.Copy; a plain Trie is copied
+// by value): the copy shares the node objects with the original.
+func copyTrie(t anyTrie) (anyTrie, bool) {
+	switch x := t.(type) {
+	case *trie.SecureTrie:
+		return x.Copy(), true
+	case *trie.Trie:
+		cp := *x
+		return &cp, true
+	}
+	return nil, false
 }
 
 func (c *histCase) log(kind, detail string) {
@@ -190,6 +208,26 @@ func propHistory(t *rapid.T) {
 		return root
 	}
 
+	checkFrozen := func() {
+		if c.frozen == nil {
+			return
+		}
+		for tk, want := range c.frozenContent {
+			got, err := c.frozen.TryGet(c.frozenRaw[tk])
+			if err != nil || !bytes.Equal(got, want) {
+				fail("C18/copy-disturbed/get/"+kindName, fmt.Sprintf("a copy of the trie taken earlier returns %x (err %v) for key %x, it held %x when it was copied; operations since went through the other handle", got, err, c.frozenRaw[tk], want))
+				return
+			}
+		}
+		want, _ := refRoot(c.frozenContent)
+		if got := c.frozen.Hash(); got != want {
+			fail("C18/copy-disturbed/root/"+kindName, fmt.Sprintf("a copy of the trie taken earlier hashes to %x, the reference root of the %d entries it held is %x", got, len(c.frozenContent), want))
+			return
+		}
+		if got, n, err := leaves(c.frozen); err != nil || n != len(got) || !sameContent(got, c.frozenContent) {
+			fail("C18/copy-disturbed/content/"+kindName, fmt.Sprintf("a copy of the trie taken earlier enumerates %d leaves (err %v), it held %d entries", n, err, len(c.frozenContent)))
+		}
+	}
 	if big {
 		// bulk load: more than 100 unhashed updates exercises the parallel hasher
 		c.log("bulk", fmt.Sprint(len(pool)))
@@ -267,6 +305,38 @@ func propHistory(t *rapid.T) {
 			}
 			checkLeaves("reload")
 		},
+		// a copy of the trie handle (StateDB.Copy / Database.CopyTrie share the node objects with the
+		// original): whatever is done through one handle afterwards, the other keeps its content
+		"copy": func(t *rapid.T) {
+			cp, ok := copyTrie(c.tr)
+			if !ok {
+				t.Skip("handle cannot be copied")
+			}
+			frozenContent := map[string][]byte{}
+			for k, v := range c.content {
+				frozenContent[k] = v
+			}
+			frozenRaw := map[string][]byte{}
+			for k, v := range c.raw {
+				frozenRaw[k] = v
+			}
+			c.log("copy", fmt.Sprintf("(%d entries)", len(c.content)))
+			// continue on either side, the other side is frozen
+			if rapid.Bool().Draw(t, "continueOnCopy") {
+				c.frozen, c.tr = c.tr, cp
+			} else {
+				c.frozen = cp
+			}
+			c.frozenContent, c.frozenRaw = frozenContent, frozenRaw
+			c.copies++
+		},
+		"checkCopy": func(t *rapid.T) {
+			if c.frozen == nil {
+				t.Skip("no copy")
+			}
+			c.log("checkCopy", "")
+			checkFrozen()
+		},
 		"": func(t *rapid.T) {},
 	}
 	// weight the mutating ops
@@ -274,6 +344,7 @@ func propHistory(t *rapid.T) {
 	t.Repeat(actions)
 
 	// ---- final oracles --------------------------------------------------------------------
+	checkFrozen()
 	final := checkRoot("end of history")
 	for _, k := range pool {
 		if len(pool) <= 40 || rapid.IntRange(0, 7).Draw(t, "probe") == 0 {
